@@ -117,6 +117,15 @@ Theorem split_is_complete : forall pre e c vs, wf_trace (pre ++ [e]) ->
       exists r0 ps, In (r0, ps) vs /\ rcont r0 = rcont r /\ In (peer_of po) ps.
 Proof. exact split_complete_lemma. Qed.
 
+(* no size cap on the version map: for ANY number of distinct contents returned to the query, the
+   contents carried by SplitRecord are exactly (iff) the contents some peer returned, each once *)
+Theorem split_carries_every_version : forall pre e c vs, wf_trace (pre ++ [e]) ->
+  In (c, ESplit vs) (step_outs (final pre) e) ->
+  exists q, (e = Finished q \/ exists po r, e = Found q po r) /\
+    NoDup (map vcont vs) /\
+    forall ct, In ct (map vcont vs) <-> exists po r, In (Found q po r) (pre ++ [e]) /\ rcont r = ct.
+Proof. exact split_carries_every_version_lemma. Qed.
+
 (* Ok(merged record) (quorum reached while versions differ): the sorted union of the transactions
    of all versions present -- never one of them picked *)
 Theorem merged_is_transaction_union : forall pre e c r,
